@@ -429,14 +429,14 @@ const prelude = `
 (declare-fun seq (Str Str) Bool)
 (declare-const lit_empty Str)
 (assert (= (slen lit_empty) 0))
-(assert (forall ((s Str)) (! (and (>= (slen s) 0) (<= (slen s) 281474976710656)) :pattern ((slen s)))))
+(assert (forall ((s Str)) (! (>= (slen s) 0) :pattern ((slen s)))))
 (assert (forall ((s Str) (i Int)) (! (=> (and (<= 0 i) (< i (slen s))) (and (<= 0 (sat s i)) (<= (sat s i) 255))) :pattern ((select (sbytes s) i)))))
 (assert (forall ((a Str) (b Str)) (! (= (slen (scat a b)) (+ (slen a) (slen b))) :pattern ((scat a b)))))
 (assert (forall ((a Str) (b Str) (i Int)) (! (= (sat (scat a b) i) (ite (< i (slen a)) (sat a i) (sat b (- i (slen a))))) :pattern ((select (sbytes (scat a b)) i)))))
 (assert (forall ((s Str) (i Int) (j Int)) (! (=> (and (<= 0 i) (<= i j) (<= j (slen s))) (= (slen (ssub s i j)) (- j i))) :pattern ((ssub s i j)))))
 (assert (forall ((s Str) (i Int) (j Int) (k Int)) (! (= (sat (ssub s i j) k) (sat s (+ i k))) :pattern ((select (sbytes (ssub s i j)) k)))))
 (assert (forall ((s Str) (j Int)) (! (=> (= j (slen s)) (= (ssub s 0 j) s)) :pattern ((ssub s 0 j)))))
-(assert (forall ((b Int)) (! (and (= (slen (sunit b)) 1) (= (sat (sunit b) 0) b)) :pattern ((sunit b)))))
+(assert (forall ((b Int)) (! (and (= (slen (sunit b)) 1) (=> (and (<= 0 b) (<= b 255)) (= (sat (sunit b) 0) b))) :pattern ((sunit b)))))
 (assert (forall ((a Str) (b Str)) (! (= (seq a b) (= a b)) :pattern ((seq a b)))))
 (assert (forall ((a Str) (b Str)) (! (= (seq a b) (and (= (slen a) (slen b)) (forall ((k Int)) (! (=> (and (<= 0 k) (< k (slen a))) (= (sat a k) (sat b k))) :pattern ((select (sbytes a) k)) :pattern ((select (sbytes b) k)))))) :pattern ((seq a b)))))
 ; rune decoding at a byte offset (Go range-over-string semantics)
@@ -460,9 +460,9 @@ const prelude = `
 ; string(bytes[off:off+n]) and string(runes[off:off+n])
 (declare-fun str_of_bytes ((Array Int Int) Int Int) Str)
 (assert (forall ((a (Array Int Int)) (o Int) (n Int)) (! (=> (>= n 0) (= (slen (str_of_bytes a o n)) n)) :pattern ((str_of_bytes a o n)))))
-(assert (forall ((a (Array Int Int)) (o Int) (n Int) (k Int)) (! (=> (and (<= 0 k) (< k n)) (= (sat (str_of_bytes a o n) k) (select a (sidx o k)))) :pattern ((select (sbytes (str_of_bytes a o n)) k)))))
+(assert (forall ((a (Array Int Int)) (o Int) (n Int) (k Int)) (! (=> (and (<= 0 k) (< k n) (<= 0 (select a (sidx o k))) (<= (select a (sidx o k)) 255)) (= (sat (str_of_bytes a o n) k) (select a (sidx o k)))) :pattern ((select (sbytes (str_of_bytes a o n)) k)))))
 (declare-fun str_of_runes ((Array Int Int) Int Int) Str)
-(assert (forall ((a (Array Int Int)) (o Int) (n Int)) (! (and (>= (slen (str_of_runes a o n)) n) (=> (<= n 0) (= (slen (str_of_runes a o n)) 0)) (<= (slen (str_of_runes a o n)) (* 4 (ite (< n 0) 0 n)))) :pattern ((str_of_runes a o n)))))
+(assert (forall ((a (Array Int Int)) (o Int) (n Int)) (! (and (>= (slen (str_of_runes a o n)) (ite (< n 0) 0 n)) (=> (<= n 0) (= (slen (str_of_runes a o n)) 0)) (<= (slen (str_of_runes a o n)) (* 4 (ite (< n 0) 0 n)))) :pattern ((str_of_runes a o n)))))
 ; utf8 encoding of one rune: string(r)
 (declare-fun utf8 (Int) Str)
 (define-fun rvalid ((r Int)) Bool (and (<= 0 r) (<= r 1114111) (not (and (<= 55296 r) (<= r 57343)))))
